@@ -57,5 +57,64 @@ def handle (op : String) (a : Json) : Option R :=
       match convMask m ⟨sh, d.toArray⟩ cv s1 s2 with
       | some r => pure (Json.mkObj [("shape", jNats r.shape), ("data", jInts r.toList)])
       | none => throw "NegativeExtent"
+  | "c13.fourierPadding" => some do
+      let tg ← getNatList a "target"; let tp ← getNatList a "template"; let b ← getNatList a "batch"
+      if tg.length ≠ tp.length ∨ tg.length ≠ b.length then throw "BadArg:rank"
+      let r := fourierPadding tg tp (b.map (· != 0)) (← getBool a "pad")
+      pure (Json.mkObj [("conv", jNats r.conv), ("fast", jNats r.fast), ("ft", jNats r.ft), ("shift", jInts r.shift)])
+  | "c13.matchingDims" => some do
+      let r ← matchingDims (← getNatList a "target") (← getNatList a "template") (← getNatList a "tdims") (← getNatList a "pdims")
+      pure (Json.mkObj [("target", jNats r.target), ("template", jNats r.template), ("batch", jNats (r.batch.map fun b => if b then 1 else 0))])
+  | "c13.targetPadding" => some do
+      let tp ← getNatList a "template"; let b ← getNatList a "batch"
+      if tp.length ≠ b.length then throw "BadArg:rank"
+      pure (jNats (targetPadding (← getBool a "pad") tp (b.map (· != 0))))
+  | "c13.postMap" => some do
+      let m ← modeOf (← getStr a "mode")
+      let sh ← getNatList a "shape"; let d ← getIntList a "data"; let sf ← getIntList a "shift"
+      let cv ← getNatList a "conv"; let s1 ← getNatList a "s1"; let s2 ← getNatList a "s2"
+      if d.length ≠ prodL sh ∨ sh.length ≠ cv.length ∨ sh.length ≠ s1.length ∨ sh.length ≠ s2.length ∨ sh.length ≠ sf.length then
+        throw "BadArg:shape"
+      match postMap (⟨sh, d.toArray⟩ : Arr Int) sf m cv s1 s2 0 with
+      | some r => pure (Json.mkObj [("shape", jNats r.shape), ("data", jInts r.toList)])
+      | none => throw "NegativeExtent"
+  | "c13.postSrc" => some do
+      pure (jNat (postSrc (← getNat a "fast") (← getInt a "shift") (← getNat a "start") (← getNat a "t")))
+  | "c13.topk" => some do
+      let sh ← getNatList a "shape"; let d ← getIntList a "data"; let k ← getNat a "k"
+      if d.length ≠ prodL sh then throw "BadArg:shape"
+      let arr : Arr Int := ⟨sh, d.toArray⟩
+      match topkIndices arr k, topkFlat arr.toList k with
+      | some idx, some fl => pure (Json.mkObj [("idx", jNatss idx), ("vals", jInts (fl.map fun f => d.getD f 0))])
+      | _, _ => throw "KthOutOfBounds"
+  | "c13.indices" => some do
+      let r := indicesArr (← getNatList a "shape")
+      pure (Json.mkObj [("shape", jNats r.shape), ("data", jNats r.toList)])
+  | "c13.centerOfMass" => some do
+      let sh ← getNatList a "shape"; let d ← getIntList a "data"
+      if d.length ≠ prodL sh then throw "BadArg:shape"
+      let hc ← getBool a "hasCut"; let cv ← getInt a "cut"
+      let cut : Option Int := if hc then some cv else none
+      pure (jIntss ((centerOfMass ⟨sh, d.toArray⟩ cut).map fun (n, dn) => [n, dn]))
+  | "c13.buildFft" => some do
+      let fast ← getNatList a "fast"; let ft ← getNatList a "ft"
+      let hi ← getBool a "hasInverse"; let iv ← getNatList a "inverse"
+      let inv : Option (List Nat) := if hi then some iv else none
+      match buildFft fast ft inv with
+      | some r => pure (Json.mkObj [("fwdIn", jNats r.fwdIn), ("fwdOut", jNats r.fwdOut), ("fwdAxes", jNats r.fwdAxes),
+                        ("invIn", jNats r.invIn), ("invOut", jNats r.invOut), ("invAxes", jNats r.invAxes)])
+      | none => throw "CannotAvoidCopy"
+  | "c13.shared" => some do
+      let sh ← getNatList a "shape"; let b ← getNatList a "bytes"
+      let s := toShared sh (← getNat a "itemsize") b (← getNat a "slack")
+      pure (Json.mkObj [("size", jNat s.buf.length), ("shape", jNats s.shape), ("read", jNats (fromShared s))])
+  | "c13.maxFilter" => some do
+      let sh ← getNatList a "shape"; let d ← getIntList a "data"
+      if d.length ≠ prodL sh then throw "BadArg:shape"
+      pure (jNatss (maxFilterCoordinates ⟨sh, d.toArray⟩ (← getNat a "size")))
+  | "c13.rigidMatrix" => some do
+      let r ← getIntListList a "rinv"; let c ← getIntList a "center"; let t ← getIntList a "translation"
+      if r.length ≠ c.length ∨ r.length ≠ t.length ∨ r.any (·.length ≠ c.length) then throw "BadArg:shape"
+      pure (Json.mkObj [("matrix", jIntss (rigidMatrix r c t)), ("offset", jInts (rigidOffset r c t))])
   | _ => none
 end Drv.C13
